@@ -30,6 +30,23 @@ from .loader import AnalysisError, norm, is_logging_stmt
 
 MSG = '<message>'
 
+import functools as _functools
+import operator as _operator
+
+# Pure standard-library callables the evaluator knows by name (applied to small concrete values;
+# a Python exception raised by one of them becomes a fault routed to the interpreted handlers).
+_PURE_BUILTINS = {'all': all, 'any': any, 'sum': sum, 'sorted': sorted, 'tuple': tuple, 'list': list,
+                  'set': set, 'frozenset': frozenset, 'map': lambda f, *s: list(map(f, *s)),
+                  'filter': lambda f, s: list(filter(f, s)), 'bool': bool, 'len': len,
+                  'enumerate': lambda s, start=0: list(enumerate(s, start)),
+                  'range': lambda *a: list(range(*a)) if all(isinstance(x, int) and abs(x) < 1000 for x in a)
+                  else (_ for _ in ()).throw(TypeError('range'))}
+_PURE_DOTTED = {'functools.reduce': _functools.reduce, 'reduce': _functools.reduce}
+for _n in ('xor', 'and_', 'or_', 'not_', 'truth', 'add', 'sub', 'mul', 'mod', 'eq', 'ne', 'lt', 'le',
+           'gt', 'ge', 'is_', 'is_not', 'neg', 'contains'):
+    _PURE_DOTTED[f'operator.{_n}'] = getattr(_operator, _n)
+_BITOPS = {ast.BitXor: _operator.xor, ast.BitAnd: _operator.and_, ast.BitOr: _operator.or_}
+
 
 class _Ret(Exception):
     def __init__(self, v):
@@ -61,6 +78,19 @@ _TYPES = {'int': int, 'str': str, 'tuple': tuple, 'list': list, 'bool': bool, 'f
 
 class Sym(str):
     """A symbolic (opaque) operand.  Arithmetic on it builds Term objects instead of numbers."""
+
+
+class Obj:
+    """An opaque object of the environment with recording methods: `x.m(args, k=v)` on a name bound to
+    an Obj calls methods['m'] (a Python callable supplied by the rule); `x.a` reads attrs['a']."""
+
+    def __init__(self, name, methods=None, attrs=None):
+        self.name = name
+        self.methods = dict(methods or {})
+        self.attrs = dict(attrs or {})
+
+    def __repr__(self):
+        return f'<{self.name}>'
 
 
 class Term(tuple):
@@ -95,6 +125,42 @@ class MiniEval:
         if isinstance(e, ast.NamedExpr) and isinstance(e.target, ast.Name):
             self.env[e.target.id] = self.ev(e.value)
             return self.env[e.target.id]
+        if isinstance(e, ast.BinOp) and type(e.op) in _BITOPS:
+            l, r = self.ev(e.left), self.ev(e.right)
+            if isinstance(l, (Sym, Term)) or isinstance(r, (Sym, Term)):
+                self.fail(e, '(bit operation on a symbolic operand)')
+            try:
+                return _BITOPS[type(e.op)](l, r)
+            except TypeError:
+                raise _Fault('TypeError') from None
+        if isinstance(e, ast.Lambda):
+            return self._closure(e.args, [ast.Return(value=e.body)], bound_method=False)
+        if isinstance(e, (ast.Name, ast.Attribute)) and norm(e) not in self.env:
+            fn_ = self._pure_callable(e)
+            if fn_ is not None:
+                return fn_
+        if isinstance(e, (ast.ListComp, ast.GeneratorExp, ast.SetComp)):
+            out_ = []
+            saved = dict(self.env)
+
+            def gen_(i):
+                if i == len(e.generators):
+                    out_.append(self.ev(e.elt))
+                    return
+                g = e.generators[i]
+                if g.is_async:
+                    self.fail(e)
+                seq = self.ev(g.iter)
+                if not isinstance(seq, (list, tuple, set, frozenset, dict, str)):
+                    raise _Fault('TypeError')
+                for item in list(seq):
+                    self.assign(g.target, item)
+                    if all(self.ev(c) for c in g.ifs):
+                        gen_(i + 1)
+            gen_(0)
+            for k_ in [k for k in self.env if k not in saved and k.isidentifier()]:
+                del self.env[k_]
+            return set(out_) if isinstance(e, ast.SetComp) else out_
         if isinstance(e, ast.BinOp) and type(e.op) in _BINOPS:
             l, r = self.ev(e.left), self.ev(e.right)
             if isinstance(l, (Sym, Term)) or isinstance(r, (Sym, Term)):
@@ -109,6 +175,9 @@ class MiniEval:
                         else (_ for _ in ()).throw(_Fault('ZeroDivisionError'))
                 except ZeroDivisionError:
                     raise _Fault('ZeroDivisionError') from None
+            if isinstance(e.op, ast.Add) and ((isinstance(l, tuple) and isinstance(r, tuple)) or
+                                              (isinstance(l, list) and isinstance(r, list))):
+                return l + r
             if isinstance(l, bool) or isinstance(r, bool) or not isinstance(l, (int, float)) \
                     or not isinstance(r, (int, float)):
                 raise _Fault('TypeError')
@@ -202,6 +271,21 @@ class MiniEval:
                     return False
                 left = right
             return True
+        if isinstance(e, ast.Call) and isinstance(e.func, ast.Attribute) and isinstance(e.func.value, ast.Name) \
+                and isinstance(self.env.get(e.func.value.id), Obj) and norm(e.func) not in self.env:
+            obj = self.env[e.func.value.id]
+            if e.func.attr not in obj.methods:
+                self.fail(e, f'(no method {e.func.attr} on the environment object {obj!r})')
+            args_, kws_ = self._call_args(e)
+            try:
+                return obj.methods[e.func.attr](*args_, **kws_)
+            except (_Ret, _Raised, _Fault, _Break, _Continue, AnalysisError):
+                raise
+            except Exception as exc:
+                raise _Fault(type(exc).__name__) from None
+        if isinstance(e, ast.Attribute) and isinstance(e.value, ast.Name) and \
+                isinstance(self.env.get(e.value.id), Obj) and e.attr in self.env[e.value.id].attrs:
+            return self.env[e.value.id].attrs[e.attr]
         if isinstance(e, ast.Call) and norm(e.func) in self.env and callable(self.env[norm(e.func)]):
             args_ = []
             for a in e.args:
@@ -232,10 +316,14 @@ class MiniEval:
             fn = self.resolve(norm(e.func))
             if fn is not None and not isinstance(fn, ast.AsyncFunctionDef):
                 params = [a.arg for a in fn.args.posonlyargs + fn.args.args]
+                recv_name = None
                 if params and params[0] in ('self', 'cls') and isinstance(e.func, ast.Attribute):
+                    recv_name = params[0]
                     params = params[1:]
                 if len(params) == len(e.args):
-                    child_env = {k: v for k, v in self.env.items() if not k.isidentifier()}
+                    child_env = {k: v for k, v in self.env.items() if not k.isidentifier() or k == '__setattr__'}
+                    if recv_name and isinstance(e.func.value, ast.Name) and e.func.value.id in self.env:
+                        child_env[recv_name] = self.env[e.func.value.id]
                     for p_, a_ in zip(params, e.args):
                         child_env[p_] = self.ev(a_)
                     child = MiniEval(self.rule, child_env, self.resolve, self.depth + 1)
@@ -248,6 +336,31 @@ class MiniEval:
                     if out[0] == 'raise':
                         raise _Raised(out[1])
                     raise _Fault(out[1])
+        if isinstance(e, ast.Call) and not e.keywords and norm(e.func) not in self.env and \
+                not (isinstance(e.func, ast.Name) and e.func.id in ('len', 'bool')):
+            fn_ = None
+            if isinstance(e.func, ast.Lambda):
+                fn_ = self.ev(e.func)
+            elif isinstance(e.func, (ast.Name, ast.Attribute)):
+                fn_ = self._pure_callable(e.func)
+            if fn_ is not None:
+                args_ = []
+                for a in e.args:
+                    if isinstance(a, ast.Starred):
+                        sv = self.ev(a.value)
+                        if not isinstance(sv, (tuple, list)):
+                            raise _Fault('TypeError')
+                        args_.extend(sv)
+                    else:
+                        args_.append(self.ev(a))
+                if any(isinstance(a, (Sym, Term)) for a in args_):
+                    self.fail(e, '(pure call on a symbolic operand)')
+                try:
+                    return fn_(*args_)
+                except (_Ret, _Raised, _Fault, _Break, _Continue, AnalysisError):
+                    raise
+                except Exception as exc:
+                    raise _Fault(type(exc).__name__) from None
         if isinstance(e, ast.Call) and isinstance(e.func, ast.Attribute) and not e.keywords and \
                 e.func.attr in ('replace', 'strip', 'lower', 'upper', 'startswith', 'endswith'):
             base = self.ev(e.func.value)
@@ -307,6 +420,69 @@ class MiniEval:
                 return abs(v)
         self.fail(e)
 
+    def _call_args(self, e):
+        args_ = []
+        for a in e.args:
+            if isinstance(a, ast.Starred):
+                sv = self.ev(a.value)
+                if not isinstance(sv, (tuple, list)):
+                    raise _Fault('TypeError')
+                args_.extend(sv)
+            else:
+                args_.append(self.ev(a))
+        kws_ = {}
+        for k in e.keywords:
+            if k.arg is None:
+                dv = self.ev(k.value)
+                if not isinstance(dv, dict):
+                    raise _Fault('TypeError')
+                kws_.update(dv)
+            else:
+                kws_[k.arg] = self.ev(k.value)
+        return args_, kws_
+
+    def _pure_callable(self, f):
+        """A Name / dotted name denoting a pure callable the evaluator can apply: a builtin of the
+        table, functools.reduce / operator.*, or a function of the analysed program handed out by
+        `resolve` (interpreted, not executed)."""
+        t = norm(f)
+        if isinstance(f, ast.Name) and f.id in _PURE_BUILTINS and (self.resolve is None or self.resolve(t) is None):
+            return _PURE_BUILTINS[f.id]
+        if t in _PURE_DOTTED:
+            return _PURE_DOTTED[t]
+        if self.resolve is not None and self.depth < 3:
+            fn = self.resolve(t)
+            if isinstance(fn, ast.FunctionDef):
+                return self._closure(fn.args, fn.body, bound_method=isinstance(f, ast.Attribute))
+        return None
+
+    def _closure(self, args, body, bound_method):
+        if args.vararg or args.kwarg or args.kwonlyargs:
+            return None
+        params = [a.arg for a in args.posonlyargs + args.args]
+        if bound_method and params and params[0] in ('self', 'cls'):
+            params = params[1:]
+        defaults = list(args.defaults)
+        outer = self
+
+        def call(*vals):
+            if len(vals) > len(params) or len(vals) < len(params) - len(defaults):
+                raise _Fault('TypeError')
+            child_env = dict(outer.env)
+            for p_, v_ in zip(params, vals):
+                child_env[p_] = v_
+            for p_, d_ in zip(params[len(params) - len(defaults):], defaults):
+                if params.index(p_) >= len(vals):
+                    child_env[p_] = outer.ev(d_)
+            child = MiniEval(outer.rule, child_env, outer.resolve, outer.depth + 1)
+            out = child.run(body)
+            if out[0] == 'return':
+                return out[1]
+            if out[0] == 'raise':
+                raise _Raised(out[1])
+            raise _Fault(out[1])
+        return call
+
     def assign(self, target, value):
         if isinstance(target, ast.Name):
             self.env[target.id] = value
@@ -357,6 +533,9 @@ class MiniEval:
                 self.ev(st.value)
             elif isinstance(st, (ast.Pass, ast.Assert)):
                 continue
+            elif isinstance(st, ast.Expr) and isinstance(st.value, (ast.Call, ast.Await)) is True and \
+                    isinstance(st.value, ast.Call):
+                self.ev(st.value)           # a call for its effect (environment object / helper)
             elif isinstance(st, ast.Raise):
                 exc = st.exc
                 name = None
